@@ -736,6 +736,15 @@ def _assign_advanced(ctx, box, items, val, lineno):
     for d_t, d_v in zip(shape[len(shape) - len(vshape):], vshape):
         if not (d_v.is_const() and d_v.const_value() == 1) and not (d_t - d_v).is_zero():
             raise AbstractRaise('ValueError', f"shape mismatch: value array of shape {tuple(map(str, vshape))} could not be broadcast to indexing result of shape {tuple(map(str, shape))}")
+    if old.ndim == 1 and len(adv) == 1 and adv[0].ndim == 1 and adv[0].affine is None and \
+            (adv[0].segs is not None or adv[0].tag is not None):
+        # scatter into a flat vector through an array of cell numbers: keep the write log only;
+        # such vectors are read row-wise through the log (never by flat position)
+        def fnsc(idx):
+            raise AnalysisError("scatter-assembled flat vector read by position")
+        box.cur = Arr(old.shape, fnsc, old.kind, origin=lineno, label=('scattered',))
+        box.log.append((('cellscatter', adv[0]), val, lineno))
+        return
     # solve the advanced part: every advanced array must be scalar or affine along one broadcast axis,
     # or the broadcast shape must be concrete (enumeration)
     solvers = []
